@@ -41,7 +41,7 @@ row('INTEGER.MAX', ['C04'], takes=[('int', 2)], pushes=[('int', 'if %s >= %s { %
 row('INTEGER.MIN', ['C04'], takes=[('int', 2)], pushes=[('int', 'if %s <= %s { %s } else { %s }' % (ai, bi, ai, bi))])
 row('INTEGER.FROMBOOLEAN', ['C04'], takes=[('bool', 1)], pushes=[('int', 'if %s { 1i32 } else { 0i32 }' % X('bool'))])
 # truncation; out of range or NaN: any in-type value (Rust's saturating cast), shapes as documented
-row('INTEGER.FROMFLOAT', ['C04'], takes=[('float', 1)], pushes=[('int', None)])
+row('INTEGER.FROMFLOAT', ['C04'], takes=[('float', 1)], pushes=[('int', 'f32_to_i32_spec(%s)' % X('float'))])
 row('INTEGER.ID', ['C04'], pushes=[('int', '9i32')])
 
 # ------------------------------------------------------------------ C04: BOOLEAN
@@ -76,7 +76,7 @@ for nm in ['FLOAT.MAX', 'FLOAT.MIN']:
     row(nm, ['C04'], takes=[('float', 2)], pushes=[('float', None)],
         clauses=[('fired.value.float.0', 'S0.float.len() >= 2 ==> (top(S1.float, 0) == %s || top(S1.float, 0) == %s)' % (af, bf))])
 row('FLOAT.FROMBOOLEAN', ['C04'], takes=[('bool', 1)], pushes=[('float', 'if %s { 1.0f32 } else { 0.0f32 }' % X('bool'))])
-row('FLOAT.FROMINTEGER', ['C04'], takes=[('int', 1)], pushes=[('float', None)])
+row('FLOAT.FROMINTEGER', ['C04'], takes=[('int', 1)], pushes=[('float', 'i32_to_f32(%s)' % X('int'))])
 row('FLOAT.ID', ['C04'], pushes=[('int', '5i32')])
 
 # ------------------------------------------------------------------ C04: NAME
